@@ -39,7 +39,7 @@ type resolvedTarget struct {
 }
 
 // member: r is an element object of the elems target, or a sub-object (nested struct/array) of one.
-func (t *resolvedTarget) member(fr *Frame, r Term) Term {
+func (t *resolvedTarget) member(fr *Frame, r Term, arrayObj bool) Term {
 	k := Term{"k!el", SInt}
 	e := Select(t.eArr, k)
 	fr.top.dot(IntT(0), 0) // make sure dot / dot_base / dot_fld and their axioms are declared
@@ -47,6 +47,11 @@ func (t *resolvedTarget) member(fr *Frame, r Term) Term {
 	// a sub-object (nested struct / array) was allocated together with the object that contains it
 	fr.top.ctx.Raw("dot-base-stamp", fmt.Sprintf("(assert (forall ((x!d Int)) (! (=> (not (= (dot_fld x!d) 0)) (= (stamp x!d) (stamp (%s x!d)))) :pattern ((%s x!d)))))", db, db))
 	sub := And(Not(Eq(fr.top.dotFld(r), IntT(0))), Eq(e, Term{"(" + db + " " + r.S + ")", SInt}))
+	if arrayObj {
+		// r is an array object (element memory): it can only be an array nested in an element object,
+		// never the element object itself (elements are structs reached through pointers)
+		return Exists([]Term{k}, And(InRange(k, t.eLo, t.eHi), Not(Eq(e, Nil)), sub))
+	}
 	return Exists([]Term{k}, And(InRange(k, t.eLo, t.eHi), Not(Eq(e, Nil)), Or(Eq(e, r), sub)))
 }
 
@@ -331,7 +336,7 @@ func (fr *Frame) havocTargets(st *State, tgs []resolvedTarget) {
 				}
 				old := fr.heap(st, hn, srt)
 				nh := fr.ctx.Fresh("Hh:"+hn, srt)
-				fr.assume(st, Forall([]Term{r}, Implies(Not(t.member(fr, r)), Eq(Select(nh, r), Select(old, r))), Select(nh, r)))
+				fr.assume(st, Forall([]Term{r}, Implies(Not(t.member(fr, r, strings.HasPrefix(hn, "M:"))), Eq(Select(nh, r), Select(old, r))), Select(nh, r)))
 				st.heaps[hn] = nh
 			}
 			fr.reassertConstStrings(st)
@@ -484,7 +489,7 @@ func (fr *Frame) frameObligations(st *State, preHeaps map[string]Term, alloc0 Te
 			}
 			for i := range tgs {
 				if tgs[i].isElems && tgs[i].eHeaps[hn] {
-					excl = append(excl, tgs[i].member(fr, r))
+					excl = append(excl, tgs[i].member(fr, r, true))
 				}
 			}
 			goal = Forall([]Term{r, j}, Implies(And(old, Not(Or(excl...))), Eq(Select(Select(now, r), j), Select(Select(pre, r), j))))
@@ -502,7 +507,7 @@ func (fr *Frame) frameObligations(st *State, preHeaps map[string]Term, alloc0 Te
 			}
 			for i := range tgs {
 				if tgs[i].isElems && tgs[i].eHeaps[hn] {
-					excl = append(excl, tgs[i].member(fr, r))
+					excl = append(excl, tgs[i].member(fr, r, false))
 				}
 			}
 			goal = Forall([]Term{r}, Implies(And(old, Not(Or(excl...))), Eq(Select(now, r), Select(pre, r))))
